@@ -197,6 +197,9 @@ class Run:
         return out
 
 
+MODEL_FREE_ADAPTERS = {"cooler._reduce:CoolerCoarsener._aggregate"}
+
+
 def replay_refuted(run, name, info, args_by_label):
     """replay the failing paths of one obligation (up to 8) until one counter-model is confirmed on the real
     code; the first path's report is kept when none confirms"""
@@ -284,6 +287,13 @@ def _replay_one(run, name, worst):
                             if isinstance(v, (z3.ExprRef, Arr, int, bool, str)) and not k.startswith("__")}
     except Exception as e:
         rep["concretize_error"] = f"{type(e).__name__}: {e}"
+    if rep["inputs"] is None and rep.get("target") in MODEL_FREE_ADAPTERS:
+        # the solver gave no model within the budget, but this function's replay adapter carries its own family of
+        # real inputs (it only takes the configuration from the ghost): a failure it finds is a real failing input
+        gh = getattr(obl, "ghost", None) or {}
+        rep["inputs"] = {}
+        rep["ghost"] = {k: v for k, v in gh.items() if isinstance(v, (int, bool, str)) and not k.startswith("__")}
+        rep["model_from"] = "no solver model; the adapter's own family of real inputs for this configuration"
     if rep["inputs"] is not None and rep.get("target"):
         try:
             p = subprocess.run([VENV_PY, os.path.join(ROOT, "replay", "run.py")],
@@ -416,7 +426,8 @@ def main():
             # the real code: a candidate that makes the REAL function break its contract is a genuine
             # counterexample (reported as a violation with that input); otherwise it stays undecided.
             confirmed = False
-            if any("candidate-model=yes" in (w.get("detail") or "") for w in info["worst"]) and nm not in known_obl:
+            tgt_mf = any(getattr(o, "target", None) in MODEL_FREE_ADAPTERS for o in run.obls if o.name == nm)
+            if (tgt_mf or any("candidate-model=yes" in (w.get("detail") or "") for w in info["worst"])) and nm not in known_obl:
                 rep = replay_refuted(run, nm, info, None)
                 if rep.get("confirmed_on_real_code"):
                     safe = re.sub(r"[^A-Za-z0-9_.=-]+", "_", nm)[:150]
